@@ -138,7 +138,7 @@ mutual
     | .struct fields, v => (match v with
         | .struct vs => HasTypeFieldsE fields vs
         | _ => False)
-    | .named _ _, _ => False
+    | .named _ u, v => HasTypeE u v          -- a declared type without marshal methods: the values of its underlying type
     | .ref _, _ => False
   /-- one value per declared field; an ignored field may hold anything -/
   def HasTypeFieldsE : List (FieldE GoTypeE) → List GoValue → Prop
@@ -193,7 +193,7 @@ mutual
     | .struct fields, v => (match v with
         | .struct vs => .obj (encodeFieldsE (candidates [] 0 fields) [] 0 fields vs)
         | _ => .null)
-    | .named _ _, _ => .null
+    | .named _ u, v => encodeE u v           -- … encoded like its underlying type
     | .ref _, _ => .null
   /-- the members contributed by the struct at index `pre` of the outer struct whose candidates are `all`: the
       dominant fields in index order, without the omitted ones -/
@@ -253,7 +253,7 @@ mutual
             | some b => b                                                        -- the field of exactly that name
             | none => (decodableFindE (candidates [] 0 fields) foldEq [] 0 fields p.1 p.2).getD false   -- else the first one up to case; none: unknown field
         | _ => false)
-    | .named _ _, _ => false
+    | .named _ u, j => decodableE u j        -- … decoded like its underlying type
     | .ref _, _ => false
   /-- the first dominant field (index order) whose JSON name matches the key -/
   def decodableFindE (all : List TField) (m : String → String → Bool) (pre : List Nat) :
@@ -320,6 +320,75 @@ mutual
     | .ptr (.named _ (.struct fs)) => inDomainFieldsE fs
     | .named _ (.struct fs) => inDomainFieldsE fs
     | _ => false
+end
+
+/-! ### declared (named) types in non-embedded positions
+
+  As in EncJson.lean: a declared type without marshal methods is its underlying type (`HasTypeE`, `encodeE`, `decodableE`
+  look through `.named`).  `eraseE T` replaces every declared type in a NON-embedded position by its underlying type; the
+  type of an embedded field keeps its name (the Go name of the field, and the key of a TypeSchemas override), the fields
+  below it are erased. -/
+
+mutual
+  def eraseE : GoTypeE → GoTypeE
+    | .basic kind => .basic kind
+    | .named _ u => eraseE u
+    | .ref n => .ref n
+    | .ptr e => .ptr (eraseE e)
+    | .slice e => .slice (eraseE e)
+    | .array n e => .array n (eraseE e)
+    | .map keyKind e => .map keyKind (eraseE e)
+    | .struct fields => .struct (eraseFieldsE fields)
+  def eraseFieldsE : List (FieldE GoTypeE) → List (FieldE GoTypeE)
+    | [] => []
+    | f :: rest =>
+      { goName := f.goName, tag := f.tag, exported := f.exported, embedded := f.embedded,
+        type := if f.embedded then eraseEmbE f.type else eraseE f.type } :: eraseFieldsE rest
+  /-- the type of an embedded field: the declared struct type stays, its fields are erased -/
+  def eraseEmbE : GoTypeE → GoTypeE
+    | .ptr (.named n (.struct fs)) => .ptr (.named n (.struct (eraseFieldsE fs)))
+    | .ptr (.struct fs) => .ptr (.struct (eraseFieldsE fs))
+    | .named n (.struct fs) => .named n (.struct (eraseFieldsE fs))
+    | .struct fs => .struct (eraseFieldsE fs)
+    | t => t
+end
+
+/-- `InDomainE` with declared types in non-embedded positions -/
+def InDomainEN (T : GoTypeE) : Bool := InDomainE (eraseE T)
+
+def namedShapeE : GoTypeE → Bool
+  | .basic _ => true
+  | .slice _ => true
+  | .array _ _ => true
+  | .map _ _ => true
+  | .struct _ => true
+  | _ => false
+
+mutual
+  /-- the declared types in non-embedded positions are transparent for `forTypeE` (decidable; as `EncJson.NamedOk`
+      without marshaler types): none has an entry in the type table, the underlying type is a basic kind, slice, array,
+      map or struct, no name occurs twice along a root-to-leaf path.  The declared types of embedded fields are not
+      constrained: `forTypeE` never calls itself on them (their fields are promoted). -/
+  def NamedOkE (opts : Go.IOpts) : List String → GoTypeE → Bool
+    | _, .basic _ => true
+    | seen, .ptr e => NamedOkE opts seen e
+    | seen, .slice e => NamedOkE opts seen e
+    | seen, .array _ e => NamedOkE opts seen e
+    | seen, .map _ e => NamedOkE opts seen e
+    | seen, .struct fields => namedOkFieldsE opts seen fields
+    | seen, .named n u =>
+      !seen.contains n && (Json.lookup n opts.schemas).isNone && namedShapeE u && NamedOkE opts (n :: seen) u
+    | _, .ref _ => false
+  def namedOkFieldsE (opts : Go.IOpts) : List String → List (FieldE GoTypeE) → Bool
+    | _, [] => true
+    | seen, f :: rest =>
+      (if f.embedded then namedOkEmbE opts seen f.type else NamedOkE opts seen f.type) && namedOkFieldsE opts seen rest
+  def namedOkEmbE (opts : Go.IOpts) : List String → GoTypeE → Bool
+    | seen, .ptr (.named _ (.struct fs)) => namedOkFieldsE opts seen fs
+    | seen, .ptr (.struct fs) => namedOkFieldsE opts seen fs
+    | seen, .named _ (.struct fs) => namedOkFieldsE opts seen fs
+    | seen, .struct fs => namedOkFieldsE opts seen fs
+    | _, _ => true
 end
 
 mutual
